@@ -28,9 +28,11 @@ type verifAuthQuery struct {
 }
 
 type verifAuthCase struct {
-	Config    authConfig       `json:"config"`
-	UsersFile string           `json:"usersFileContent"`
-	Queries   []verifAuthQuery `json:"queries"`
+	// the configuration as the configuration loader hands it to the authenticator's constructor: a generic map
+	// (the keys are matched to authConfig's fields without regard to case)
+	Config    map[string]interface{} `json:"config"`
+	UsersFile string                 `json:"usersFileContent"`
+	Queries   []verifAuthQuery       `json:"queries"`
 }
 
 type verifAuthObs struct {
@@ -72,11 +74,16 @@ func TestVerifBuiltinAuth(t *testing.T) {
 	obs := make([]verifAuthObs, len(cases))
 	for i, c := range cases {
 		cfg := c.Config
-		if c.UsersFile != "" {
-			cfg.UsersFile = filepath.Join(dir, fmt.Sprintf("users%d.yaml", i))
-			_ = ioutil.WriteFile(cfg.UsersFile, []byte(c.UsersFile), 0o600)
+		if cfg == nil {
+			cfg = map[string]interface{}{}
 		}
-		a, e := newSimpleAuth(cfg)
+		if c.UsersFile != "" {
+			file := filepath.Join(dir, fmt.Sprintf("users%d.yaml", i))
+			_ = ioutil.WriteFile(file, []byte(c.UsersFile), 0o600)
+			cfg["usersFile"] = file
+		}
+		// the constructor the broker itself uses (it adds the guest user to a configuration without users)
+		a, e := configureSimpleAuth(cfg)
 		if e != nil {
 			obs[i].LoadErr = e.Error()
 			continue
